@@ -11,10 +11,10 @@ SYMS = ['BTC-USDT', 'ETH-USDT']
 @st.composite
 def session(draw, minutes=(60, 200), kinds=('futures', 'spot'), tfs=('1m', '3m', '5m', '15m'), data_tfs=('3m', '5m', '15m', '30m', '1h'),
             max_symbols=2, max_data=2, warmup=(False, True), fast=(False, True), modes=('cross',), leverages=(1, 2, 5, 10, 25),
-            fees=(0.0, 0.0004, 0.001, 0.0075), structural=True, program=None, same_tf=False, align_len=False, min_steps=8):
+            fees=(0.0, 0.0004, 0.001, 0.0075), structural=True, program=None, same_tf=False, align_len=False, min_steps=8, min_symbols=1):
     kind = draw(st.sampled_from(kinds))
     futures = kind == 'futures'
-    nsym = draw(st.integers(1, max_symbols))
+    nsym = draw(st.integers(min_symbols, max_symbols))
     syms = SYMS[:nsym]
     tf0 = draw(st.sampled_from(tfs))
     routes = [dict(symbol=s, timeframe=tf0 if (same_tf or i == 0) else draw(st.sampled_from(tfs))) for i, s in enumerate(syms)]
